@@ -502,6 +502,12 @@ func resumeDomain(lines []string) []string {
 			// handed over once, in order, and the saved offsets end at the last record
 			out = append(out, liveChain(f[1], atoi(f[2]), f[3] == "1"))
 			continue
+		case "panicresume":
+			// panicresume <kind> <n> <k>: the process dies INSIDE the handler (a panic that unwinds SubscribeWithReplay) while
+			// event k of n is being replayed; after the restart the subscription is handed event k again (its position was
+			// not saved: the handler had not returned) and then the rest: nothing is lost, nothing else is repeated
+			out = append(out, panicResume(f[1], atoi(f[2]), atoi(f[3])))
+			continue
 		case "cancelresume":
 			// cancelresume <batch> <n> <k>: a resumable subscription over the real SQLite store (streaming in batches of
 			// <batch>, 0 = unbatched) whose catch-up context is cancelled while event k of n is being handled; positions
@@ -616,6 +622,61 @@ func liveChain(kind string, n int, two bool) string {
 		return fmt.Sprintf("!livechain saved offset of a is %q after the chain, the last record is %q", offA, evs[len(evs)-1].Offset)
 	}
 	return "livechain ok"
+}
+
+func panicResume(kind string, n, k int) string {
+	var st fullStore
+	if kind == "sqlite" {
+		dir, _ := os.MkdirTemp("", "verifpanicresume")
+		defer os.RemoveAll(dir)
+		s, err := ebsql.New(filepath.Join(dir, "db.sqlite"))
+		if err != nil {
+			return "!panicresume store " + err.Error()
+		}
+		defer s.Close()
+		st = s
+	} else {
+		st = eb.NewMemoryStore()
+	}
+	b1 := eb.New(eb.WithStore(st))
+	for i := 1; i <= n; i++ {
+		eb.Publish(b1, mkRT1(i))
+	}
+	var got []int
+	armed := true
+	h := func(e RT1) {
+		got = append(got, e.R)
+		if armed && e.R == k {
+			armed = false
+			panic("the process dies inside the handler")
+		}
+	}
+	died := false
+	func() {
+		defer func() {
+			if recover() != nil {
+				died = true
+			}
+		}()
+		_ = eb.SubscribeWithReplay(context.Background(), eb.New(eb.WithStore(st)), "pr", h)
+	}()
+	if !died {
+		return "!panicresume the panic of the handler did not reach the caller of SubscribeWithReplay"
+	}
+	if err := eb.SubscribeWithReplay(context.Background(), eb.New(eb.WithStore(st)), "pr", h); err != nil {
+		return "!panicresume after restart: " + err.Error()
+	}
+	var want []int
+	for i := 1; i <= k; i++ {
+		want = append(want, i)
+	}
+	for i := k; i <= n; i++ {
+		want = append(want, i)
+	}
+	if !reflect.DeepEqual(got, want) {
+		return fmt.Sprintf("!panicresume handler died at event %d of %d: over the restart the subscription was handed %s", k, n, showNatList(got))
+	}
+	return "panicresume ok"
 }
 
 func cancelResume(batch, n, k int) string {
